@@ -77,6 +77,13 @@ class SubNode(Node):
 
 
 @dataclass(eq=False)
+class BackLeaf(Leaf):
+    """an element that refers back to the container that holds it"""
+
+    home: Optional[Bag] = None
+
+
+@dataclass(eq=False)
 class Bag:
     """alternatively mapped container: its mapping exposes the relationship under another name than the constructor argument"""
 
@@ -148,6 +155,20 @@ class Album:
 
 
 @dataclass(eq=False)
+class Car:
+    """a pair of one-to-one references, neither annotated Optional (the back-reference style of the repository's examples)"""
+
+    plate: int = 15
+    engine: Engine = None
+
+
+@dataclass(eq=False)
+class Engine:
+    power: int = 16
+    car: Car = None
+
+
+@dataclass(eq=False)
 class Shape:
     sides: int = 3
 
@@ -197,5 +218,5 @@ class Rich:
     owner: Optional[Node] = None
 
 
-CLASSES = [Leaf, SubLeaf, SubSubLeaf, DeepLeaf, Vec, Node, SubNode, Rich, Bag, LabeledBag, SealedBag, Holder, Strip, Album, Shape, Circle, Drawing]
+CLASSES = [Leaf, SubLeaf, SubSubLeaf, DeepLeaf, BackLeaf, Car, Engine, Vec, Node, SubNode, Rich, Bag, LabeledBag, SealedBag, Holder, Strip, Album, Shape, Circle, Drawing]
 ALTERNATIVE_MAPPINGS = [VecMapped, BagMapped, StripMapped, CircleMapped]
